@@ -58,6 +58,17 @@ Decompress ==
   /\ lastop' = "decompress" /\ hist' = Append(hist, "decompress")
   /\ UNCHANGED <<kind, ctor>>
 
+\* The first chunk of a WELL-FORMED LZMA2 stream asks for a dictionary reset, a state reset and new properties
+\* (Lzma2Decoder::parse_lzma with control >= 0xE0) and sets the per-chunk size: whatever the object did before is
+\* overwritten before the first symbol is decoded.  This is why an Lzma2Decoder may be reused WITHOUT reset on
+\* well-formed streams (WellFormedStartIsFresh), while an LzmaDecoder may not (its Decompress starts from Proj).
+L2FirstChunk(p, z) ==
+  /\ kind = "lzma2"
+  /\ dirty' = {} /\ st' = 0 /\ repz' = TRUE /\ pl' = 0
+  /\ props' = p /\ rows' = Rows(p) /\ size' = z
+  /\ lastop' = "l2first" /\ hist' = Append(hist, "l2first")
+  /\ UNCHANGED <<kind, ctor>>
+
 \* LzmaDecoder::reset(Option<Option<u64>>) / Lzma2Decoder::reset()
 Reset(newsize) ==      \* newsize: -1 = keep, or a member of Sizes
   /\ dirty' = {} /\ st' = 0 /\ repz' = TRUE
@@ -70,4 +81,8 @@ Reset(newsize) ==      \* newsize: -1 = keep, or a member of Sizes
 
 \* C14
 ResetIsFresh == lastop = "reset" => Proj = Fresh(kind, ctor, size)
+\* C02 on a reused object: at the first symbol of a well-formed LZMA2 stream the projection is a function of the
+\* stream's own first chunk header alone
+WellFormedStartIsFresh ==
+  lastop = "l2first" => Proj = [dirty |-> {}, st |-> 0, repz |-> TRUE, props |-> props, rows |-> Rows(props), size |-> size, pl |-> 0]
 ====
